@@ -527,3 +527,57 @@ Definition wit_ok_sd : sd :=
         [mkVx (0, 0)%nat 2 [(0, 5); (0, 0); (0, 2); (0, 3)]%nat; mkVx (0, 1)%nat 2 [(0, 6); (0, 1); (0, 4)]%nat;
          mkVx (0, 2)%nat 3 [(0, 7); (0, 5)]%nat; mkVx (0, 3)%nat 3 [(0, 8); (0, 6)]%nat;
          mkVx (0, 4)%nat 1 [(0, 9); (0, 0); (0, 2); (0, 3); (0, 4)]%nat; mkVx (0, 5)%nat 1 [(0, 10); (0, 1)]%nat]).
+
+(* ====================================================================================== *)
+(* 8. bond dimensions of the single-term diagram (used by C12)                             *)
+(* ====================================================================================== *)
+Local Close Scope Q_scope.
+Lemma ids_cons : forall t, ids t = rid t :: tl (ids t).
+Proof. intros [v cs]. reflexivity. Qed.
+
+Lemma st_vxs_edges : forall j t, Permutation (map vedge (st_vxs j t)) (tl (ids t)).
+Proof.
+  intros j. induction t as [v cs IH] using rtree_ind2.
+  cbn [st_vxs ids tl]. rewrite map_app, map_map. cbn [vedge].
+  induction cs as [|c cs IHcs]; cbn [map flat_map app]; [constructor|].
+  inversion IH as [|c' cs' Hc Hcs]; subst.
+  rewrite map_app. rewrite (ids_cons c). cbn [app]. apply perm_skip.
+  eapply Permutation_trans; [apply Permutation_app_swap_app|].
+  apply Permutation_app; [exact Hc | apply IHcs; exact Hcs].
+Qed.
+
+Definition nverts (d : sd) (c : nat) : nat := length (filter (fun x => Nat.eqb (vedge x) c) (vxs d)).
+
+Lemma filter_count : forall (l : list vx) c,
+  length (filter (fun x => Nat.eqb (vedge x) c) l) = count_occ Nat.eq_dec (map vedge l) c.
+Proof.
+  induction l as [|x l IH]; intros c; simpl; auto.
+  destruct (Nat.eq_dec (vedge x) c) as [E|E].
+  - rewrite (proj2 (Nat.eqb_eq _ _) E). simpl. rewrite IH. reflexivity.
+  - rewrite (proj2 (Nat.eqb_neq _ _) E). apply IH.
+Qed.
+
+(* one vertex on every edge: a single-term Hamiltonian gives bond dimension one everywhere *)
+Theorem single_term_bonds_one : forall j t tm c, NoDup (ids t) -> In c (tl (ids t)) ->
+  nverts (single_term j t tm) c = 1.
+Proof.
+  intros j t [[lam gam] f] c ND Hc. unfold nverts, single_term. cbn [vxs].
+  rewrite filter_count.
+  rewrite (proj1 (Permutation_count_occ Nat.eq_dec _ _) (st_vxs_edges j t) c).
+  assert (ND' : NoDup (tl (ids t))). { rewrite ids_cons in ND. inversion ND; assumption. }
+  apply (proj1 (NoDup_count_occ' Nat.eq_dec (tl (ids t))) ND' c Hc).
+Qed.
+
+Lemma nverts_sum : forall a b c, nverts (sd_sum a b) c = nverts a c + nverts b c.
+Proof. intros. unfold nverts, sd_sum. cbn [vxs]. rewrite filter_app, app_length. reflexivity. Qed.
+
+Lemma base_from_bonds : forall t c, NoDup (ids t) -> In c (tl (ids t)) -> forall H j acc,
+  nverts (sd_base_from j t H acc) c = nverts acc c + length H.
+Proof.
+  intros t c ND Hc. induction H as [|tm H IH]; intros j acc; cbn [sd_base_from length]; [lia|].
+  rewrite IH, nverts_sum, (single_term_bonds_one j t tm c ND Hc). lia.
+Qed.
+
+(* the uncompressed construction has one vertex per term on every edge *)
+Theorem base_bonds : forall t H c, NoDup (ids t) -> In c (tl (ids t)) -> nverts (sd_base t H) c = length H.
+Proof. intros t H c ND Hc. unfold sd_base. rewrite (base_from_bonds t c ND Hc). reflexivity. Qed.
